@@ -338,6 +338,30 @@ func buildWorld(c *c21Case) *c21World {
 			w.jtvs = append(w.jtvs, c21TV{path: full, tv: u.Val})
 		}
 	}
+	// numeric list keys are also spelled non-canonically ("007" for 7) in some of the shared
+	// paths: legal, and code that rewrites a key into its canonical form must do so in a copy
+	pad := func(p *gpb.Path) {
+		for _, e := range p.GetElem() {
+			for _, k := range model.SortedKeys(e.Key) {
+				v := e.Key[k]
+				if len(v) > 0 && len(v) < 5 && v[0] != '0' && strings.Trim(v, "0123456789") == "" && r.Intn(3) == 0 {
+					e.Key[k] = "00" + v
+				}
+			}
+		}
+	}
+	for _, req := range w.reqs {
+		pad(req.Prefix)
+		for _, d := range req.Delete {
+			pad(d)
+		}
+		for _, u := range append(append([]*gpb.Update{}, req.Replace...), req.Update...) {
+			pad(u.Path)
+		}
+	}
+	for _, e := range w.tvs {
+		pad(e.path)
+	}
 	sort.SliceStable(w.reqs, func(a, b int) bool { return w.reqs[a].Prefix != nil && w.reqs[b].Prefix == nil })
 	for i := 0; i < len(c.Tasks); i++ {
 		w.roots = append(w.roots, g.Tree(w.p.RootType(), w.sch).(ygot.GoStruct))
